@@ -36,6 +36,27 @@ C_EXO = Contract(requires=['sp_lits_ok(self->assigns, ls, XT_MAXLITS) && xt_ncl 
                           ('log_bounded', 'xt_ncl >= %s && xt_ncl <= %s + 4' % (OLD('xt_ncl'), OLD('xt_ncl')))],
                  assigns='xt_ncl, __CPROVER_object_whole(xt_cl), self->assigns')
 C_BIND = Contract(requires=['1'], ensures=['1'], assigns='')
+# meaning contracts of the other reified constructs of sat_core, used only if the code under proof calls them
+SAT_EQ = 'smt_sat_core_new_eq__lit__lit'
+SAT_CONJ = 'smt_sat_core_new_conj__vec_lit'
+SAT_DISJ = 'smt_sat_core_new_disj__vec_lit'
+
+
+def _reified(formula, args_ok):
+    return Contract(requires=[args_ok + ' && xt_ncl + 4 <= XT_MAXCL && self->assigns.n < XT_MAXV'],
+                    ensures=[('result_in_range', 'sp_var(%s) < self->assigns.n' % R),
+                             ('equivalent', '!(sg_ext(xt_sigma, self->assigns) && %s) || sg_lit(xt_sigma, %s) == %s' % (LOGC, R, formula)),
+                             ('root_assignment_unchanged', 'sp_assigns_grown(%s, self->assigns)' % OLD('self->assigns')),
+                             ('conservative', '!(sg_ext(xt_sigma, %s) && (self->assigns.n == %s || sg_lit(xt_sigma, sp_mk_lit(%s, 1)) == %s)) || %s' % (
+                                 OLD('self->assigns'), OLD('self->assigns.n'), OLD('self->assigns.n'), formula, LOGC)),
+                             ('at_most_one_new_variable', 'self->assigns.n <= %s + 1' % OLD('self->assigns.n')),
+                             ('log_bounded', 'xt_ncl >= %s && xt_ncl <= %s + 4' % (OLD('xt_ncl'), OLD('xt_ncl')))],
+                    assigns='xt_ncl, __CPROVER_object_whole(xt_cl), self->assigns')
+
+
+C_SAT_EQ = _reified('(sg_lit(xt_sigma, *left) == sg_lit(xt_sigma, *right))', 'sp_var(*left) < self->assigns.n && sp_var(*right) < self->assigns.n')
+C_SAT_CONJ = _reified('sg_all(xt_sigma, ls)', 'sp_lits_ok(self->assigns, ls, XT_MAXLITS)')
+C_SAT_DISJ = _reified('sg_sat_lits(xt_sigma, ls)', 'sp_lits_ok(self->assigns, ls, XT_MAXLITS)')
 HPRE = '  { unsigned int sg; xt_sigma = sg; }'
 
 
@@ -50,8 +71,9 @@ def jobs(tier):
     NET = 'sp_assigns_wf(%s->assigns, 4) && xt_ncl == 0 && __exc == 0' % SAT
 
     def J(name, target, contract, replace, unwind=DOM + 2, extra=None, **kw):
-        cc = {NEW_VAR: C_NEW_VAR, NEW_CLAUSE: C_NEW_CLAUSE, EXO: C_EXO, BIND: C_BIND}
+        cc = {NEW_VAR: C_NEW_VAR, NEW_CLAUSE: C_NEW_CLAUSE, EXO: C_EXO, BIND: C_BIND, SAT_EQ: C_SAT_EQ, SAT_CONJ: C_SAT_CONJ, SAT_DISJ: C_SAT_DISJ}
         cc.update(extra or {})
+        replace = list(replace) + ([SAT_EQ, SAT_CONJ, SAT_DISJ] if replace else [])
         out.append(Job('ov.' + name, target, tus=TUS, contract=contract, defines=d, unwind=unwind, model_unwind=13, spec_headers=SPEC,
                        callee_contracts={k: cc[k] for k in replace}, replace=list(replace), exceptions=True, caps=caps, abstract_fields=ABS,
                        harness_pre=HPRE, force_types=FORCE, timeout=2400, mem_gb=24, solver='cadical',
